@@ -353,8 +353,16 @@ class ParseTreeMap(Generic[ClassType1, ObjType1, ClassType2, ObjType2]):
         if not rule1.children:
             return ParseTreeMap._min_object(rule2)
 
-        assert isinstance(rule1, Rule) and isinstance(rule2, Rule)
+        assert isinstance(rule1, Rule)
         mapped_obj, idx = rule1.indexed_forward_map(obj)
+
+        if not rule2.children and rule1.is_equivalence():
+            # The codomain is already at its atom while the domain still has
+            # equivalence steps to take: move along in spec1 only.
+            return self.map_rec(
+                mapped_obj[0], self.domain.rules_dict[rule1.children[0]], rule2
+            )
+        assert isinstance(rule2, Rule)
 
         if rule2.is_equivalence():
             if not rule1.is_equivalence():
